@@ -103,6 +103,9 @@ def search(ctx):
                         if proj is not None and np.ndim(g) == 2 and "Triangular" in label and not np.allclose(g, proj(np.asarray(g))):
                             bad += 1
                             ctx.fail(f"structure:{label}:{what}", f"{label}: {what} has entries outside the stored triangle", {"class": label})
+                        if proj is not None and np.ndim(g) == 2 and "Triangular" not in label and not np.allclose(g, np.asarray(g).T, rtol=1e-9, atol=1e-11):
+                            bad += 1
+                            ctx.fail(f"structure:{label}:{what}", f"{label}: {what} is not symmetric although the parameter is a symmetric array", {"class": label})
                         got = contract(g, delta)
                         if not abs(got - fd) <= 2e-5 * max(1.0, abs(fd)):
                             bad += 1
@@ -121,20 +124,94 @@ def search(ctx):
             if not ok:
                 bad += 1
                 ctx.fail("BlockDiagonal.grads", "PositiveDefiniteBlockDiagonalMatrix gradients are not the tuple of the blocks' gradients", {})
-    # SoftAbs with (numerically) repeated eigenvalues
-    for c in (0.7,):
-        Q = matzoo.orth(np.random.default_rng(3), 3)
-        S = (Q * np.array([1.0, 1.0, -0.5])) @ Q.T
-        S = 0.5 * (S + S.T)
-        m = mm.SoftAbsRegularizedPositiveDefiniteMatrix(S, c)
-        g = m.grad_quadratic_form_inv(np.array([0.3, -1.0, 0.7]))
-        ctx.case(("softabs-repeated", c))
-        if not np.all(np.isfinite(g)):
-            key = "SoftAbs.grad_quadratic_form_inv:repeated_eigenvalues"
-            bad += not ctx.is_known(key)
-            ctx.fail(key, "SoftAbsRegularizedPositiveDefiniteMatrix.grad_quadratic_form_inv is not finite for a parameter with a repeated eigenvalue", {"coeff": c, "param": S.tolist()})
+    # SoftAbs at special parameter values: exactly repeated eigenvalues (identity, multiples, repeated blocks), +/- eigenvalue pairs (equal after
+    # regularisation, different before), numerically repeated ones
+    def soft_dense(S, c):
+        ev, evec = np.linalg.eigh(S)
+        return (evec * (ev / np.tanh(ev * c))) @ evec.T
+    Q3 = matzoo.orth(np.random.default_rng(3), 3)
+    specials = {"identity": np.eye(3), "2*identity(2)": 2 * np.eye(2), "diag(1,1,-0.5)": np.diag([1.0, 1.0, -0.5]), "rotated(1,1,-0.5)": 0.5 * ((Q3 * np.array([1.0, 1.0, -0.5])) @ Q3.T + ((Q3 * np.array([1.0, 1.0, -0.5])) @ Q3.T).T),
+                "antidiag": np.array([[0.0, 1.3], [1.3, 0.0]]), "traceless": np.array([[0.7, 0.4], [0.4, -0.7]]), "diag(2,-2,0.7)": np.diag([2.0, -2.0, 0.7]),
+                "block(+-)": np.array([[0.0, 0.9, 0.0], [0.9, 0.0, 0.0], [0.0, 0.0, 1.1]]), "triple": -0.8 * np.eye(3)}
+    srng = np.random.default_rng(int(rng.integers(0, 2 ** 31)))
+    for sname, S in specials.items():
+        for c in (0.7, 1.5):
+            n = S.shape[0]
+            m = mm.SoftAbsRegularizedPositiveDefiniteMatrix(S, c)
+            v = srng.standard_normal(n)
+            g = np.asarray(m.grad_quadratic_form_inv(v))
+            gl = np.asarray(m.grad_log_abs_det)
+            ctx.case(("softabs-special", sname, c))
+            ctx.count("search:SoftAbs:special_parameters")
+            worst = 0.0
+            for _ in range(3):
+                Dd = srng.standard_normal((n, n))
+                Dd = Dd + Dd.T
+                h = 1e-5
+                Mp, Mm = soft_dense(S + h * Dd, c), soft_dense(S - h * Dd, c)
+                fdq = (v @ np.linalg.solve(Mp, v) - v @ np.linalg.solve(Mm, v)) / (2 * h)
+                fdl = (np.linalg.slogdet(Mp)[1] - np.linalg.slogdet(Mm)[1]) / (2 * h)
+                worst = max(worst, abs(np.sum(g * Dd) - fdq) / max(1.0, abs(fdq)), abs(np.sum(gl * Dd) - fdl) / max(1.0, abs(fdl))) if np.all(np.isfinite(g)) and np.all(np.isfinite(gl)) else np.inf
+            if np.all(np.isfinite(g)) and not (np.allclose(g, g.T, rtol=1e-9, atol=1e-11) and np.allclose(gl, gl.T, rtol=1e-9, atol=1e-11)):
+                bad += 1
+                ctx.fail("SoftAbs.grads:structure", f"SoftAbsRegularizedPositiveDefiniteMatrix(param={sname}, coeff={c}): the reported gradient is not symmetric although the parameter is a "
+                         f"symmetric array (asymmetry {np.abs(g - g.T).max():.2e})", {"param": S.tolist(), "coeff": c, "vector": v.tolist()})
+            if not worst <= 1e-4:
+                bad += 1
+                ctx.fail("SoftAbs.grads:special_parameter", f"SoftAbsRegularizedPositiveDefiniteMatrix(param={sname}, coeff={c}): gradients differ from central differences of the dense formula "
+                         f"by {worst:.2e} (relative)" if np.isfinite(worst) else f"SoftAbsRegularizedPositiveDefiniteMatrix(param={sname}, coeff={c}): gradient is not finite",
+                         {"param": S.tolist(), "coeff": c, "vector": v.tolist()})
+    # derived objects: a differentiable matrix that has been used (inverse / capacitance / factor cached) and then rescaled keeps reporting true gradients
+    for rep in range(2 if not ctx.thorough else 8):
+        drng = np.random.default_rng(int(rng.integers(0, 2 ** 31)))
+        n = 3
+        for label, theta, build, dense, proj in cases(drng, n):
+            if label.startswith(("ScaledIdentity", "Diagonal", "SoftAbs")) or "sign=-1" in label and "Triangular" in label or "is_posdef=False" in label:
+                continue
+            m0 = build(theta)
+            matzoo.touch(m0)
+            try:
+                m0.grad_log_abs_det
+            except Exception:  # noqa: BLE001
+                pass
+            sc = float(drng.choice([0.4, 3.0]))
+            for how, m1, fac in (("divided", m0 / sc, 1 / sc), ("multiplied", sc * m0, sc)):
+                if not isinstance(m1, mm.DifferentiableMatrix) or type(m1) is not type(m0):
+                    continue
+                vv = drng.standard_normal(n)
+                delta = drng.standard_normal(np.shape(theta["p"]))
+                if proj is not None:
+                    delta = proj(delta)
+                # the rescaled object's parameter: factor-type parameters scale by sqrt(fac), array-type parameters by fac
+                root = label.startswith(("TriangularFactored", "DensePositiveDefiniteProduct", "PositiveDefiniteLowRankUpdate"))
+                h = 1e-6
+
+                def f(t, fac=fac):
+                    D = fac * dense({"p": theta["p"] + t * delta})
+                    return np.linalg.slogdet(D)[1], vv @ np.linalg.solve(D, vv)
+                (l1, q1), (l2, q2) = f(h), f(-h)
+                # d/dt at the ORIGINAL parameter; the reported gradient is w.r.t. the rescaled object's own parameter p1 = k p0 (k = sqrt(fac) or fac)
+                kpar = np.sqrt(fac) if root else fac
+                ctx.case(("derived", label, how, rep))
+                ctx.count("search:derived_objects")
+                try:
+                    g_ld, g_qf = np.asarray(m1.grad_log_abs_det), np.asarray(m1.grad_quadratic_form_inv(vv))
+                except Exception as e:  # noqa: BLE001
+                    bad += 1
+                    ctx.fail(f"raises:derived:{label}", f"{label} used then {how} by {sc}: gradient request raised {type(e).__name__}: {str(e)[:80]}", {"class": label})
+                    continue
+                if label.startswith("PositiveDefiniteLowRankUpdate"):
+                    continue_ok = True     # rescaling a low-rank update rescales the base and inner matrices, the factor parameter is unchanged
+                    kpar = 1.0
+                for what, g, fdv in (("grad_log_abs_det", g_ld, (l1 - l2) / (2 * h)), ("grad_quadratic_form_inv", g_qf, (q1 - q2) / (2 * h))):
+                    got = contract(g, delta) * kpar
+                    if not abs(got - fdv) <= 5e-5 * max(1.0, abs(fdv)):
+                        bad += 1
+                        ctx.fail(f"{label.split('(')[0]}.{what}:derived", f"{label} (n={n}) used (inverse / factor / capacitance cached) and then {how} by {sc}: <{what}, delta> = {got:.8f} but the "
+                                 f"directional derivative of the dense formula is {fdv:.8f}", {"class": label, "how": how, "scalar": sc, "what": what, "got": got, "fd": fdv,
+                                                                                                 "param": np.asarray(theta["p"]).tolist(), "v": vv.tolist()})
     ctx.oblige("search: every differentiable class / option (both signs, lower and upper factors, with and without inner matrix, SoftAbs coefficients, block "
-               "composition): <reported gradient, direction> vs central differences of the dense formulas, three requests per object", bad == 0, f"{bad} failures")
+               "composition): <reported gradient, direction> vs central differences of the dense formulas, three requests per object; SoftAbs at exactly / numerically repeated eigenvalues and +/- eigenvalue pairs; objects used and then rescaled", bad == 0, f"{bad} failures")
 
 
 def correspondence(ctx):
